@@ -490,7 +490,7 @@ func tableKeys(s string) []string {
 // variable by its pattern (core.RxName), so a rule that mentions one of these also pins its text.
 var (
 	rxDisplay       = core.RxName(`(?i)display:\s*([\w-]+)\s*(?:;|$)`)
-	rxVisibility    = core.RxName(`(?i)visibility:\s*(:?hidden|collapse)`)
+	rxVisibility    = core.RxName(`(?i)(?:^|[\s;])visibility:\s*(:?hidden|collapse)`)
 	rxSrcset        = core.RxName(`(?i)(\S+)(\s+[\d.]+[xw])?(\s*(?:,|$))`)
 	rxTitleSep      = core.RxName(`(?i) [\|\-\\/>»] `)
 	rxUnlikely      = core.RxName(`(?i)-ad-|ai2html|banner|breadcrumbs|combx|comment|community|cover-wrap|disqus|extra|footer|gdpr|header|legends|menu|related|remark|replies|rss|shoutbox|sidebar|skyscraper|social|sponsor|supplemental|ad-break|agegate|pagination|pager|popup|yom-remote`)
